@@ -398,8 +398,9 @@ pub fn run_c18(env: &Env) -> Report {
                         let missing: Vec<&String> = want.iter().filter(|w| !cands.contains(w)).collect();
                         if !missing.is_empty() && !typed_is_emoticon {
                             // the documented cut to nine (eight + English) is part of the ranking rules (DESIGN §5 C18): a full list may drop emoji
-                            if cands.len() >= room { rep.count("bengali-name-emoji-cut-by-nine-limit"); }
-                            else { rep.violation("C18", "bengali-name-emoji-missing", format!("name {:?} composed {:?}: missing {:?} in {:?}", name, aux, missing, cands), ctx.clone()); }
+                            // a name with more emoji than the list has room for (9 places, 8 with English, the first is the composed text)
+                            let cls = if cands.len() >= room && list.len() + 1 > room { "bengali-name-more-emoji-than-list-room" } else { "bengali-name-emoji-missing" };
+                            rep.violation("C18", cls, format!("name {:?} composed {:?}: missing {:?} in {:?}", name, aux, missing, cands), ctx.clone());
                         }
                         rep.eval(Some(&format!("bn|{}|{}", s.opts.bits_str(), aux)));
                     } else { rep.count("bengali-name-not-composed-verbatim"); }
